@@ -4,168 +4,16 @@ package compress
 
 import (
 	"bytes"
-	"compress/flate"
-	"compress/gzip"
-	"compress/zlib"
-	"errors"
 	"fmt"
 	"io"
-	"io/fs"
-	"math/rand"
 	"strconv"
 	"strings"
 	"testing"
 
-	"github.com/andybalholm/brotli"
 	"github.com/imroc/req/v3/internal/ascii"
+	"github.com/imroc/req/v3/internal/verifc14"
 	"github.com/imroc/req/v3/internal/verifh"
-	"github.com/klauspost/compress/zstd"
 )
-
-// ---------------------------------------------------------------- test payloads / codecs
-
-var c14Algs = []string{"gzip", "deflate", "br", "zstd"}
-
-func c14Compress(alg string, p []byte) []byte {
-	var b bytes.Buffer
-	switch alg {
-	case "gzip":
-		w := gzip.NewWriter(&b)
-		w.Write(p)
-		w.Close()
-	case "deflate": // deflate_reader.go uses compress/flate: a RAW deflate stream, no zlib wrapper
-		w, _ := flate.NewWriter(&b, flate.DefaultCompression)
-		w.Write(p)
-		w.Close()
-	case "zlib":
-		w := zlib.NewWriter(&b)
-		w.Write(p)
-		w.Close()
-	case "br":
-		w := brotli.NewWriter(&b)
-		w.Write(p)
-		w.Close()
-	case "zstd":
-		w, _ := zstd.NewWriter(&b, zstd.WithZeroFrames(true)) // a frame even for the empty payload
-		w.Write(p)
-		w.Close()
-	default:
-		panic(alg)
-	}
-	return b.Bytes()
-}
-
-// c14Src is an underlying body: delivers data in chunks of at most `chunk` bytes and ends
-// with fin (io.EOF or a framing error).
-type c14Src struct {
-	data   []byte
-	chunk  int
-	fin    error
-	closed bool
-}
-
-func (s *c14Src) Read(p []byte) (int, error) {
-	if len(s.data) == 0 {
-		return 0, s.fin
-	}
-	n := len(p)
-	if s.chunk > 0 && n > s.chunk {
-		n = s.chunk
-	}
-	n = copy(p[:n], s.data)
-	s.data = s.data[n:]
-	return n, nil
-}
-func (s *c14Src) Close() error { s.closed = true; return nil }
-
-func c14Term(err error) string {
-	switch {
-	case err == nil:
-		return "-"
-	case err == io.EOF:
-		return "eof"
-	case errors.Is(err, io.ErrUnexpectedEOF):
-		return "err1"
-	case errors.Is(err, fs.ErrClosed):
-		return "err3"
-	default:
-		return "err2"
-	}
-}
-
-// c14Ref is the meaning of a body under the reference library used directly (no req code):
-// constructor result, whole output, final error.
-func c14Ref(alg string, wire []byte, fin error) (open string, out []byte, term string) {
-	src := &c14Src{data: append([]byte(nil), wire...), fin: fin}
-	var r io.Reader
-	switch alg {
-	case "gzip":
-		zr, err := gzip.NewReader(src)
-		if err != nil {
-			return c14Term(err), nil, "eof"
-		}
-		r = zr
-	case "deflate":
-		r = flate.NewReader(src)
-	case "br":
-		r = brotli.NewReader(src)
-	case "zstd":
-		zr, err := zstd.NewReader(src)
-		if err != nil {
-			return c14Term(err), nil, "eof"
-		}
-		defer zr.Close()
-		r = zr
-	}
-	buf := make([]byte, 32<<10)
-	for i := 0; i < 1<<20; i++ {
-		n, err := r.Read(buf)
-		out = append(out, buf[:n]...)
-		if err != nil {
-			return "ok", out, c14Term(err)
-		}
-	}
-	return "ok", out, "-"
-}
-
-func c14Payload(r *rand.Rand, class int) []byte {
-	switch class {
-	case 0:
-		return nil
-	case 1:
-		return []byte(verifh.RandBytes(r, 1+r.Intn(12), "abc"))
-	case 2: // compressible text
-		words := []string{"alpha ", "beta ", "gamma ", "delta ", "\n", "0123456789", "req "}
-		var b strings.Builder
-		for b.Len() < 50+r.Intn(500) {
-			b.WriteString(verifh.Pick(r, words))
-		}
-		return []byte(b.String())
-	case 3: // incompressible
-		return []byte(verifh.RandBytes(r, 20+r.Intn(300), ""))
-	default: // larger than the flate window / one zstd block
-		n := 40000 + r.Intn(90000)
-		b := make([]byte, n)
-		for i := range b {
-			if i > 64 && r.Intn(4) != 0 {
-				b[i] = b[i-1-r.Intn(64)]
-			} else {
-				b[i] = byte(r.Intn(256))
-			}
-		}
-		return b
-	}
-}
-
-func c14Sizes(r *rand.Rand) []int {
-	pool := []int{1, 1, 2, 3, 7, 16, 100, 512, 4096, 65536}
-	n := 1 + r.Intn(4)
-	s := make([]int, n)
-	for i := range s {
-		s[i] = verifh.Pick(r, pool)
-	}
-	return s
-}
 
 // c14RunScript drives a reader the way the driver lane `c14reader` does.
 func c14RunScript(rd io.ReadCloser, expect []byte, closeAfter int, sizes, extra []int) string {
@@ -186,7 +34,7 @@ func c14RunScript(rd io.ReadCloser, expect []byte, closeAfter int, sizes, extra 
 		}
 		data = append(data, buf[:n]...)
 		if err != nil {
-			term = c14Term(err)
+			term = verifc14.Term(err)
 			break
 		}
 	}
@@ -197,7 +45,7 @@ func c14RunScript(rd io.ReadCloser, expect []byte, closeAfter int, sizes, extra 
 	for _, n := range extra {
 		buf := make([]byte, n)
 		k, err := rd.Read(buf)
-		after = append(after, verifh.Hex(string(buf[:k]))+":"+c14Term(err))
+		after = append(after, verifh.Hex(string(buf[:k]))+":"+verifc14.Term(err))
 	}
 	d := verifh.Hex(string(data))
 	if closeAfter > 0 {
@@ -235,7 +83,7 @@ func TestVerif_C14_select(t *testing.T) {
 			tok = base[i]
 			derived = true
 		case r.Intn(3) == 0: // mutate the case of a supported token
-			b := []byte(verifh.Pick(r, c14Algs))
+			b := []byte(verifh.Pick(r, verifc14.Algs))
 			for j := range b {
 				if r.Intn(3) == 0 {
 					b[j] ^= 0x20
@@ -244,7 +92,7 @@ func TestVerif_C14_select(t *testing.T) {
 			tok = string(b)
 			derived = true
 		case r.Intn(3) == 0: // edit a supported token
-			b := []byte(verifh.Pick(r, c14Algs))
+			b := []byte(verifh.Pick(r, verifc14.Algs))
 			switch r.Intn(4) {
 			case 0:
 				b = append(b, byte(r.Intn(256)))
@@ -258,7 +106,7 @@ func TestVerif_C14_select(t *testing.T) {
 			tok = string(b)
 			derived = true
 		case r.Intn(2) == 0:
-			tok = verifh.Pick(r, c14Algs) + verifh.Pick(r, []string{",", ", ", ";"}) + verifh.Pick(r, c14Algs)
+			tok = verifh.Pick(r, verifc14.Algs) + verifh.Pick(r, []string{",", ", ", ";"}) + verifh.Pick(r, verifc14.Algs)
 			derived = true
 		default:
 			tok = verifh.RandBytes(r, r.Intn(9), "gzipdeflatbrs-GZ, ")
@@ -324,13 +172,13 @@ func TestVerif_C14_readers(t *testing.T) {
 	var streams []c14Stream
 	add := func(st c14Stream) { streams = append(streams, st) }
 	// exhaustive truncation of small streams
-	for _, alg := range c14Algs {
+	for _, alg := range verifc14.Algs {
 		for _, pc := range []int{0, 1, 2} {
-			p := c14Payload(r, pc)
+			p := verifc14.Payload(r, pc)
 			if pc == 2 && len(p) > 160 {
 				p = p[:160]
 			}
-			w := c14Compress(alg, p)
+			w := verifc14.Compress(alg, p)
 			add(c14Stream{alg, "valid", p, w, io.EOF})
 			for cut := 1; cut < len(w); cut++ {
 				add(c14Stream{alg, "trunc", p, w[:cut], io.EOF})
@@ -339,13 +187,13 @@ func TestVerif_C14_readers(t *testing.T) {
 	}
 	n := verifh.N(900, 40000)
 	for i := 0; i < n; i++ {
-		alg := verifh.Pick(r, c14Algs)
+		alg := verifh.Pick(r, verifc14.Algs)
 		pc := r.Intn(4)
 		if r.Intn(60) == 0 {
 			pc = 4
 		}
-		p := c14Payload(r, pc)
-		w := c14Compress(alg, p)
+		p := verifc14.Payload(r, pc)
+		w := verifc14.Compress(alg, p)
 		switch r.Intn(10) {
 		case 0, 1, 2:
 			add(c14Stream{alg, "valid", p, w, io.EOF})
@@ -362,18 +210,18 @@ func TestVerif_C14_readers(t *testing.T) {
 		case 5:
 			add(c14Stream{alg, "trail", p, append(append([]byte(nil), w...), []byte(verifh.RandBytes(r, 1+r.Intn(9), ""))...), io.EOF})
 		case 6:
-			other := verifh.Pick(r, c14Algs)
+			other := verifh.Pick(r, verifc14.Algs)
 			if other == alg {
 				add(c14Stream{alg, "wrongfmt", p, p, io.EOF}) // not compressed at all
 			} else {
-				add(c14Stream{alg, "wrongfmt", p, c14Compress(other, p), io.EOF})
+				add(c14Stream{alg, "wrongfmt", p, verifc14.Compress(other, p), io.EOF})
 			}
 		case 7:
 			if alg == "gzip" {
-				p2 := c14Payload(r, r.Intn(4))
-				add(c14Stream{alg, "multi", append(append([]byte(nil), p...), p2...), append(append([]byte(nil), w...), c14Compress("gzip", p2)...), io.EOF})
+				p2 := verifc14.Payload(r, r.Intn(4))
+				add(c14Stream{alg, "multi", append(append([]byte(nil), p...), p2...), append(append([]byte(nil), w...), verifc14.Compress("gzip", p2)...), io.EOF})
 			} else if alg == "deflate" {
-				add(c14Stream{alg, "zlib", p, c14Compress("zlib", p), io.EOF})
+				add(c14Stream{alg, "zlib", p, verifc14.Compress("zlib", p), io.EOF})
 			} else {
 				add(c14Stream{alg, "empty", nil, nil, io.EOF})
 			}
@@ -384,8 +232,8 @@ func TestVerif_C14_readers(t *testing.T) {
 		}
 	}
 	for i, st := range streams {
-		open, out, term := c14Ref(st.alg, st.wire, st.fin)
-		sizes := c14Sizes(r)
+		open, out, term := verifc14.Ref(st.alg, st.wire, st.fin)
+		sizes := verifc14.Sizes(r)
 		var extra []int
 		for k := r.Intn(4); k > 0; k-- {
 			extra = append(extra, 1+r.Intn(64))
@@ -400,9 +248,9 @@ func TestVerif_C14_readers(t *testing.T) {
 				extra = []int{1 + r.Intn(9)}
 			}
 		}
-		src := &c14Src{data: append([]byte(nil), st.wire...), fin: st.fin}
+		src := &verifc14.Src{Data: append([]byte(nil), st.wire...), Fin: st.fin}
 		if r.Intn(2) == 0 {
-			src.chunk = 1 + r.Intn(40)
+			src.Chunk = 1 + r.Intn(40)
 		}
 		var got string
 		id := fmt.Sprintf("%s/%s#%d", st.alg, st.kind, i)
@@ -482,7 +330,7 @@ func TestVerif_C14_readers(t *testing.T) {
 		}
 		s.Case(line, got, ok, class, st.kind != "empty", human+" -> "+c14Short(got))
 	}
-	for _, alg := range c14Algs {
+	for _, alg := range verifc14.Algs {
 		for _, k := range []string{"valid", "trunc", "flip", "trail", "wrongfmt", "srcerr"} {
 			if hist[alg+":"+k] == 0 {
 				t.Errorf("bucket %s:%s not reached", alg, k)
